@@ -100,11 +100,7 @@ def ls(s):
     return '"' + s.replace("\\", "\\\\").replace('"', '\\"') + '"'
 
 
-def main():
-    rs = rows()
-    src = "/- GENERATED by gen/gen_coins.py from /repo's coin enumerations and configuration getters. Do not edit. -/\n"
-    src += "import BipVerif.Model.CoinRow\nnamespace BipVerif.Gen\nopen BipVerif.Model\n\n"
-    src += "def coinRows : List CoinRow := [\n"
+def render_rows(rs):
     items = []
     for r in rs:
         items.append("  { family := %s, member := %s, variant := %s, confId := %d, coinName := %s, abbr := %s, coinIdx := %d, isTestnet := %s,\n"
@@ -113,13 +109,35 @@ def main():
                          "true" if r["isTestnet"] else "false", ls(r["defPath"]), r["keyNetPub"], r["keyNetPriv"],
                          "none" if r["wifNetVer"] is None else "some %s" % r["wifNetVer"], ls(r["bip32"]), ls(r["addrFmt"]),
                          ", ".join("(%s, %s)" % (ls(k), ls(v)) for k, v in r["addrParams"]), r["purpose"]))
-    src += ",\n".join(items) + "\n]\n\n"
+    return ",\n".join(items)
+
+
+def main():
+    import json
+    from harness.core import VERIF
+    rs = rows()
+    others = other_rows()
+    gpath = os.path.join(VERIF, "golden", "registry.json")
+    if "--pin" in sys.argv:       # (re)create the pinned registry from the current tree: a deliberate, committed act
+        json.dump({"coinRows": rs, "otherCoins": others}, open(gpath, "w"), indent=1, sort_keys=True)
+    src = "/- GENERATED by gen/gen_coins.py from /repo's coin enumerations and configuration getters. Do not edit. -/\n"
+    src += "import BipVerif.Model.CoinRow\nnamespace BipVerif.Gen\nopen BipVerif.Model\n\n"
+    src += "def coinRows : List CoinRow := [\n" + render_rows(rs) + "\n]\n\n"
     src += "/-- Substrate and Monero coins: (family, member, coin name, abbreviation, parameters) -/\n"
     src += "def otherCoins : List (String × String × String × String × List (String × String)) := [\n"
     src += ",\n".join("  (%s, %s, %s, %s, [%s])" % (ls(f), ls(m), ls(n), ls(a), ", ".join("(%s, %s)" % (ls(k), ls(v)) for k, v in ps))
-                      for f, m, n, a, ps in other_rows())
+                      for f, m, n, a, ps in others)
     src += "\n]\n\nend BipVerif.Gen\n"
     write_if_changed(os.path.join(LEAN, "BipVerif", "Gen", "Coins.lean"), src)
+    g = json.load(open(gpath))
+    gs = "/- GENERATED by gen/gen_coins.py from /verif/golden/registry.json (pinned registry). Do not edit. -/\n"
+    gs += "import BipVerif.Model.CoinRow\nnamespace BipVerif.Golden\nopen BipVerif.Model\n\n"
+    gs += "def coinRows : List CoinRow := [\n" + render_rows([dict(r, addrParams=[tuple(p) for p in r["addrParams"]]) for r in g["coinRows"]]) + "\n]\n\n"
+    gs += "def otherCoins : List (String × String × String × String × List (String × String)) := [\n"
+    gs += ",\n".join("  (%s, %s, %s, %s, [%s])" % (ls(f), ls(m), ls(n), ls(a), ", ".join("(%s, %s)" % (ls(k), ls(v)) for k, v in ps))
+                     for f, m, n, a, ps in g["otherCoins"])
+    gs += "\n]\n\nend BipVerif.Golden\n"
+    write_if_changed(os.path.join(LEAN, "BipVerif", "Golden", "Coins.lean"), gs)
 
 
 if __name__ == "__main__":
